@@ -211,7 +211,7 @@ def fp_atom(n, inst, rc):
     return None
 
 
-def analyse(ctx, mod, k, inst, names, cpp20, findings):
+def analyse(ctx, mod, k, inst, names, cpp20, findings, undecided):
     nob = ndis = 0
     isint = model.is_int(inst.rc)
     uns = isint and not model.INT_TYPES[model.canon(inst.rc)][1]
@@ -219,9 +219,15 @@ def analyse(ctx, mod, k, inst, names, cpp20, findings):
         f = mod.funcs.get("w_%s_%d" % (nm, k))
         if f is None:
             raise AnalysisBroken("wrapper w_%s_%d missing" % (nm, k))
-        d = dag.build(f, mod)
         key = "%s|%s" % (inst.key, nm)
         nob += 1
+        try:
+            d = dag.build(f, mod)
+        except AnalysisBroken as e:
+            # this wrapper is outside what the DAG builder reads (calls that were not inlined, memory
+            # traffic): undecided, reported as analysis-broken unless something else is a violation
+            undecided.append((key, str(e)))
+            continue
         if isint:
             classify = int_classifier(inst, uns)
             if nm in EXPECT or nm.startswith("ss_"):
@@ -360,20 +366,23 @@ def body(ctx):
         mod, alive, dropped = irbuild.build_blocks(ctx, pre, blocks, "c08_%d_%d" % (ci, cpp20), only=lambda n: n.startswith("w_"),
                                                    std="c++20" if cpp20 else "c++14")
         fs = []
+        und = []
         nob = ndis = nf = 0
         for k in alive:
             inst, names = meta[k]
-            a, b = analyse(ctx, mod, k, inst, names, cpp20, fs)
+            a, b = analyse(ctx, mod, k, inst, names, cpp20, fs, und)
             nob += a
             ndis += b
             nf += len(names)
-        return nob, ndis, nf, fs, {meta[k][0].key: v for k, v in dropped.items()}
+        return nob, ndis, nf, fs, {meta[k][0].key: v for k, v in dropped.items()}, und
 
     jobs = []
     for ci in range(0, len(insts), 20):
         jobs.append((ci, insts[ci:ci + 20], False))
         jobs.append((ci, insts[ci:ci + 20], True))
-    for nob, ndis, nf, fs, dropped in cxx.pmap(do, jobs):
+    undecided = []
+    for nob, ndis, nf, fs, dropped, und in cxx.pmap(do, jobs):
+        undecided += und
         tot[0] += nob
         tot[1] += ndis
         tot[2] += nf
@@ -410,6 +419,28 @@ def body(ctx):
                       + "static_assert((%s < %s) == %s && (%s == %s) == %s && (%s >= %s) == %s, \"constexpr comparisons\");"
                       % (q[0], q[1], "true" if A < B else "false", q[0], q[1], "true" if A == B else "false", q[0], q[1], "true" if A >= B else "false"))
                 items.append(witness.Item("cx:%s" % inst.key, ca, "accept", None, dict(desc="mixed-unit + - %% and comparisons of %s in constant expressions, exact values for (7, 3)" % inst.key)))
+    # C++20: the category of <=> is the raw rep's, zeros of either sign are equivalent and a NaN is
+    # unordered - exactly what ==, < and > say (constant expressions, C++20 configurations only)
+    ss = []
+    for inst in insts:
+        if (inst.rc, inst.m1 != inst.m2) not in {(i.rc, i.m1 != i.m2) for i in ss}:
+            ss.append(inst)
+    for inst in ss:
+        same = inst.m1 == inst.m2
+        hd = ("struct B : au::UnitImpl<au::Length> {}; struct U : decltype(B{} * (%s)) {}; %s\nusing R1 = %s; using R2 = %s; using RC = std::common_type_t<R1, R2>;\n"
+              % (mexpr(inst.m1), "using V = U;" if same else "struct V : decltype(B{} * (%s)) {};" % mexpr(inst.m2), inst.r1, inst.r2))
+        code = hd + ("static_assert(std::is_same<decltype(au::make_quantity<U>(R1{1}) <=> au::make_quantity<V>(R2{1})), decltype(RC{1} <=> RC{1})>::value, \"category of <=> is the common rep's\");\n"
+                     "static_assert(std::is_same<decltype(au::make_quantity<V>(R2{1}) <=> au::make_quantity<U>(R1{1})), decltype(RC{1} <=> RC{1})>::value, \"category of <=> (reversed)\");\n"
+                     "static_assert((au::make_quantity<U>(R1{0}) <=> au::make_quantity<V>(R2{0})) == 0, \"zero <=> zero\");\n")
+        if model.is_fp(inst.rc):
+            code += ("constexpr R1 nz1 = -R1{0}; constexpr R2 nz2 = -R2{0}; constexpr R1 nan1 = std::numeric_limits<R1>::quiet_NaN(); constexpr R2 nan2 = std::numeric_limits<R2>::quiet_NaN();\n"
+                     "static_assert((au::make_quantity<U>(nz1) <=> au::make_quantity<V>(R2{0})) == 0 && (au::make_quantity<U>(R1{0}) <=> au::make_quantity<V>(nz2)) == 0, \"zeros of opposite sign are equivalent, as == says\");\n"
+                     "static_assert(au::make_quantity<U>(nz1) == au::make_quantity<V>(R2{0}), \"== on zeros of opposite sign\");\n"
+                     "#ifndef __clang__  /* clang's constant evaluator refuses arithmetic on a NaN: g++ judges these */\n"
+                     "static_assert(!((au::make_quantity<U>(nan1) <=> au::make_quantity<V>(R2{1})) < 0) && !((au::make_quantity<U>(nan1) <=> au::make_quantity<V>(R2{1})) > 0) && !((au::make_quantity<U>(nan1) <=> au::make_quantity<V>(R2{1})) == 0), \"a NaN is unordered (left)\");\n"
+                     "static_assert(!((au::make_quantity<U>(R1{1}) <=> au::make_quantity<V>(nan2)) < 0) && !((au::make_quantity<U>(R1{1}) <=> au::make_quantity<V>(nan2)) > 0) && !((au::make_quantity<U>(R1{1}) <=> au::make_quantity<V>(nan2)) == 0), \"a NaN is unordered (right)\");\n"
+                     "static_assert(!(au::make_quantity<U>(nan1) < au::make_quantity<V>(R2{1})) && !(au::make_quantity<U>(nan1) > au::make_quantity<V>(R2{1})) && !(au::make_quantity<U>(nan1) == au::make_quantity<V>(R2{1})), \"< > == with a NaN\");\n#endif\n")
+        items.append(witness.Item("ss:%s" % inst.key, code, "accept", {"c++20"}, dict(desc="C++20 <=> for %s: comparison category of the common rep %s, zeros of either sign equivalent, NaN unordered" % (inst.key, inst.rc))))
     chrono = ("void w() { auto s = au::seconds(3); std::chrono::milliseconds ms{5}; std::chrono::duration<double> d{1.5};\n"
               "(void)(s == ms); (void)(ms == s); (void)(s < ms); (void)(ms < s); (void)(s + ms); (void)(ms + s); (void)(s - ms); (void)(ms - s);\n"
               "(void)(au::seconds(1.0) < d); (void)(d >= au::seconds(1.0)); (void)(au::milli(au::seconds)(7) != ms); }")
@@ -417,12 +448,14 @@ def body(ctx):
     wprel = witness.DEFAULT_PRELUDE + USING + '#include "au/units/seconds.hh"\n#if __cplusplus >= 202002L\n#include <compare>\n#endif\n'
     results, stats = witness.judge(ctx, items, cxx.ALL_CONFIGS if ctx.thorough else configs + [cxx.CLANG20], prelude=wprel, batch=20, tag="c08")
     nbad = witness.report_mismatches(ctx, items, results, prelude=wprel)
+    if undecided and not ctx.violations:
+        raise AnalysisBroken("%d wrappers could not be read into a DAG, e.g. %s: %s" % (len(undecided), undecided[0][0], undecided[0][1]))
     ctx.coverage.update(dict(
         obligations=tot[0] + len(items), discharged=tot[1] + len(items) - nbad,
         checker_cmd="bin/check C08 --tier %s" % ctx.tier,
         trusted_base=["clang 14 lowering to IR", "opt-14 sroa/inline/simplifycfg", "vlib/dag.py affine forms, vlib/ordering.py truth tables", "vlib/model.py gcd unit and policy"],
         evaluations=tot[2], distinct_nontrivial=tot[2],
-        rule="one IR wrapper per (operator, rep pair of equal signedness or floating, unit pair); comparisons decided by truth table over the orderings of the two scaled operands, + - % by affine form / operand structure; C++20 <=> in a separate C++20 TU",
+        rule="one IR wrapper per (operator, rep pair of equal signedness or floating, unit pair); comparisons decided by truth table over the orderings of the two scaled operands, + - % by affine form / operand structure; C++20 <=> in a separate C++20 TU; W: the operators compile alike under every configuration, exact values in constant expressions, and for one instance per (common rep, same/different units) the C++20 comparison category equals the common rep's, zeros of either sign are equivalent and a NaN is unordered",
         samples=[dict(instance=insts[0].key, k1=insts[0].k1, k2=insts[0].k2, common_rep=insts[0].rc)],
         exhaustive=False, instances=len(insts), wrappers=tot[2], w_items=len(items), w_mismatches=nbad, engine_stats=stats,
         not_decided="ulp-closeness of floating sums under cancellation (only constants and IEEE operations are checked)"))
